@@ -42,6 +42,80 @@ fn verif_replay() {
         println!("VERIF-OUTCOME {}", out);
         return;
     }
+    if case["driver"].as_str() == Some("tunnel_after_reply") {
+        // a real SOCKS client request goes through the real handshake; then what the dispatcher does after a successful connect:
+        // the upstream side is attached (its local address IPv4 or IPv6), on_connect runs, the relay starts -- and the origin
+        // speaks first.  The client reads its reply (8 bytes for SOCKS4, per ATYP for SOCKS5) and then must see the banner intact.
+        let version = a["version"].as_u64().unwrap_or(4) as u8;
+        let local_v6 = a["local_v6"].as_bool().unwrap_or(true);
+        let rt = tokio::runtime::Builder::new_current_thread().enable_all().build().unwrap();
+        let out = rt.block_on(async move {
+            use tokio::io::{AsyncReadExt, AsyncWriteExt};
+            use crate::context::{make_buffered_stream, ContextRefOps};
+            const BANNER: &[u8] = b"BANNER-0123456789-origin-speaks-first";
+            let mut l: SocksListener = serde_yaml::from_str("name: s\nbind: 127.0.0.1:0\n").unwrap();
+            l.init().await.unwrap();
+            let l = Arc::new(l);
+            let tcp = TcpListener::bind("127.0.0.1:0").await.unwrap();
+            let addr = tcp.local_addr().unwrap();
+            let client = tokio::spawn(async move {
+                let mut s = TcpStream::connect(addr).await.unwrap();
+                let mut buf = [0u8; 64];
+                if version == 4 {
+                    s.write_all(&[4, 1, 0, 80, 127, 0, 0, 1, b'x', 0]).await.ok();
+                } else {
+                    s.write_all(&[5, 1, 0]).await.ok();
+                    let _ = tokio::time::timeout(std::time::Duration::from_millis(500), s.read_exact(&mut buf[..2])).await;
+                    s.write_all(&[5, 1, 0, 1, 127, 0, 0, 1, 0, 80]).await.ok();
+                }
+                // the reply
+                let mut reply = Vec::new();
+                let ok = async {
+                    if version == 4 {
+                        let mut r = [0u8; 8];
+                        s.read_exact(&mut r).await.ok()?;
+                        reply.extend_from_slice(&r);
+                    } else {
+                        let mut h = [0u8; 4];
+                        s.read_exact(&mut h).await.ok()?;
+                        reply.extend_from_slice(&h);
+                        let n = match h[3] { 1 => 4, 4 => 16, 3 => { let mut l = [0u8; 1]; s.read_exact(&mut l).await.ok()?; reply.push(l[0]); l[0] as usize }, _ => return None };
+                        let mut rest = vec![0u8; n + 2];
+                        s.read_exact(&mut rest).await.ok()?;
+                        reply.extend_from_slice(&rest);
+                    }
+                    Some(())
+                };
+                let reply_read = tokio::time::timeout(std::time::Duration::from_millis(1500), ok).await.ok().flatten().is_some();
+                let mut after = vec![0u8; BANNER.len()];
+                let got = tokio::time::timeout(std::time::Duration::from_millis(1500), s.read_exact(&mut after)).await.map(|r| r.is_ok()).unwrap_or(false);
+                (reply_read, reply, if got { after } else { Vec::new() })
+            });
+            let (socket, source) = tcp.accept().await.unwrap();
+            let state: Arc<GlobalState> = Default::default();
+            let (tx, mut rx) = tokio::sync::mpsc::channel(4);
+            let _ = tokio::time::timeout(std::time::Duration::from_secs(3), l.clone().handshake(socket, source, state, tx)).await;
+            let ctx = match rx.try_recv() { Ok(c) => c, Err(_) => return serde_json::json!({"panicked": false, "routed": false}) };
+            let (mut origin, ours) = tokio::io::duplex(65536);
+            origin.write_all(BANNER).await.unwrap();
+            let local: SocketAddr = if local_v6 { "[::1]:40000".parse().unwrap() } else { "127.0.0.1:40000".parse().unwrap() };
+            let remote: SocketAddr = if local_v6 { "[::1]:80".parse().unwrap() } else { "127.0.0.1:80".parse().unwrap() };
+            ctx.write().await.set_server_stream(make_buffered_stream(ours)).set_local_addr(local).set_server_addr(remote).set_connector("direct".into());
+            ctx.on_connect().await;
+            let ctx2 = ctx.clone();
+            let relay = tokio::spawn(async move {
+                let params = crate::config::IoParams { buffer_size: 4096, use_splice: false };
+                let _ = crate::copy::copy_bidi(ctx2, &params).await;
+            });
+            let (reply_read, reply, after) = client.await.unwrap_or((false, vec![], vec![]));
+            relay.abort();
+            drop(origin);
+            serde_json::json!({"panicked": false, "routed": true, "reply_read": reply_read, "reply": reply.iter().map(|b| format!("{:02x}", b)).collect::<String>(),
+                               "after_reply": String::from_utf8_lossy(&after), "tunnel_bytes_intact": after == BANNER})
+        });
+        println!("VERIF-OUTCOME {}", out);
+        return;
+    }
     let cmd = a["cmd"].as_u64().unwrap_or(1) as u8;
     let allow_udp = a["allow_udp"].as_bool().unwrap_or(true);
     // creds: "none" (offers only NO-AUTH), "wrong" (user/pass not in the user list), "right"
@@ -60,6 +134,24 @@ fn verif_replay() {
             let mut s = TcpStream::connect(addr).await.unwrap();
             let mut got = Vec::new();
             let mut buf = [0u8; 64];
+            if c2.starts_with("v4") {
+                // SOCKS4 / SOCKS4a: the only credential is a user id -- "v4-unknown" (not in the user list), "v4a-known-name" (a
+                // configured user's name, without the password), "v4-empty"
+                let id: &[u8] = if c2 == "v4-unknown" { b"mallory" } else if c2 == "v4a-known-name" { b"alice" } else { b"" };
+                let mut m = vec![4u8, 1, 0, 80];
+                if c2 == "v4a-known-name" { m.extend_from_slice(&[0, 0, 0, 1]); } else { m.extend_from_slice(&[127, 0, 0, 1]); }
+                m.extend_from_slice(id);
+                m.push(0);
+                if c2 == "v4a-known-name" { m.extend_from_slice(b"example.org\0"); }
+                s.write_all(&m).await.ok();
+                loop {
+                    match tokio::time::timeout(std::time::Duration::from_millis(500), s.read(&mut buf)).await {
+                        Ok(Ok(n)) if n > 0 => got.extend_from_slice(&buf[..n]),
+                        _ => break,
+                    }
+                }
+                return got;
+            }
             if c2 == "none" {
                 s.write_all(&[5, 1, 0]).await.ok();
             } else {
